@@ -81,6 +81,9 @@ func c17Sweeps(tier string) []sweep {
 	// first route's RouteBuilder again (other method / path)
 	out = append(out, sweep{"P2r", rm.Curly, sameService(pairs(atoms)), reqs})
 	out = append(out, sweep{"MX", rm.Curly, mxTables(), crossReqs([]h.Req{{Segs: []string{"m", "1"}}, {Segs: []string{"m"}}}, c17MXMethods, rs.PathSweepHeaders[:1], false)})
+	// P3s: every three-route table over a tiny alphabet (a method repeated among three candidates)
+	us := rs.Universe{Tokens: []string{"a", "{x}"}, Roots: []string{"/a"}, MaxSub: 1, RMethods: []string{"GET", "POST", "PUT"}}
+	out = append(out, sweep{"P3s", rm.Curly, triples(pathAtoms(us)), reqs})
 	if tier == "thorough" {
 		u3 := u
 		u3.Tokens = []string{"a", "b", "{x}"}
@@ -315,7 +318,7 @@ func checkC17(run *h.Run) {
 	run.Cov["evaluations"] = disp
 	run.Cov["distinct_nontrivial"] = nontriv
 	run.Cov["exhaustive"] = true
-	run.Cov["rule"] = "E1: every table of 1-2 routes (thorough: also 3) over literal / plain-variable tokens and nested literal roots x every URL of <= 3 segments; a state is one (table, URL) with one probe per method in {GET, POST, PUT, OPTIONS, DELETE} on a container with the OPTIONS filter and on a filter-less twin; routable(URL) is measured on the twin. P2r: the two-route tables whose routes share a service, the second route declared by using the first route's RouteBuilder again. P1 tables again with dynamic routes: OPTIONS served, the route removed, every method probed again (nothing memoised may survive). MX: 2-3 routes on one template in every order over extension methods whose names contain one another (LOCK/UNLOCK, PATCH/PROPPATCH). Non-trivial: some method is not answered 404."
+	run.Cov["rule"] = "E1: every table of 1-2 routes (thorough: also 3) over literal / plain-variable tokens and nested literal roots x every URL of <= 3 segments; a state is one (table, URL) with one probe per method in {GET, POST, PUT, OPTIONS, DELETE} on a container with the OPTIONS filter and on a filter-less twin; routable(URL) is measured on the twin. P2r: the two-route tables whose routes share a service, the second route declared by using the first route's RouteBuilder again. P1 tables again with dynamic routes: OPTIONS served, the route removed, every method probed again (nothing memoised may survive). P3s: every 3-route table over one root, sub-paths {'', /, /a, /{x}} and three methods. MX: 2-3 routes on one template in every order over extension methods whose names contain one another (LOCK/UNLOCK, PATCH/PROPPATCH). Non-trivial: some method is not answered 404."
 	run.Assume = []string{"routable(URL) is measured, not modelled: {m | status(m, URL) not in {404, 405}} on the filter-less twin"}
 }
 
